@@ -100,11 +100,18 @@ class ListingBase(Machine):
     def exc_key(self, what, e):
         return '-'
 
+    @staticmethod
+    def fs_name(rel, data):
+        """One SimFS name per image version (a live reader must not see another version's
+        bytes); the base name is kept because TOUGH2-MP is recognised by it."""
+        return sha(data) + '/' + rel
+
     def open_image(self, rel, data, skip):
         fs = self.ctx.fs
-        fs.put(rel, data)
+        name = self.fs_name(rel, data)
+        fs.put(name, data)
         self.op_budget = self.budget(data, 40)
-        lst = self.guarded(lambda: self.tl.t2listing(ROOT + rel, skip_tables=list(skip)),
+        lst = self.guarded(lambda: self.tl.t2listing(ROOT + name, skip_tables=list(skip)),
                            'opening %s skip=%r' % (rel, list(skip)))
         self.op_budget = self.budget(data, lst.num_times)
         return lst
@@ -123,10 +130,11 @@ class ListingBase(Machine):
         key = (rel, sha(data), tuple(skip), i)
         if key not in _FRESH:
             fs = self.ctx.fs
-            fs.put(rel, data)
+            name = self.fs_name(rel, data)
+            fs.put(name, data)
             fs.begin_op(None)
             try:
-                lst = self.tl.t2listing(ROOT + rel, skip_tables=list(skip))
+                lst = self.tl.t2listing(ROOT + name, skip_tables=list(skip))
                 if i != 0:
                     lst.index = i
                 _FRESH[key] = self.snap(lst)
@@ -150,9 +158,9 @@ class ListingBase(Machine):
         fs = self.ctx.fs
         full = self.fresh_at(rel, data, (), 0)
         # number of full result sets of the whole image
-        fs.put(rel, data)
+        fs.put(self.fs_name(rel, data), data)
         fs.begin_op(None)
-        lst = self.tl.t2listing(ROOT + rel)
+        lst = self.tl.t2listing(ROOT + self.fs_name(rel, data))
         nfull, fulltimes = lst.num_fulltimes, list(lst.fulltimes)
         lst.close()
         if 1 <= keep < nfull:
@@ -160,10 +168,10 @@ class ListingBase(Machine):
                 for back in (2, 1, 3, 0, 4):
                     cut = line_start_before(data, m, back)
                     cand = data[:cut]
-                    fs.put(rel, cand)
+                    fs.put(self.fs_name(rel, cand), cand)
                     fs.begin_op(self.budget(cand, 40))
                     try:
-                        l2 = self.tl.t2listing(ROOT + rel)
+                        l2 = self.tl.t2listing(ROOT + self.fs_name(rel, cand))
                         ok = l2.num_fulltimes == keep and list(l2.fulltimes) == fulltimes[:keep]
                         if ok:
                             l2.last()
@@ -532,3 +540,501 @@ class HistoryMachine(ListingBase):
 
     def live_key(self, what):
         return '-'
+
+
+# =====================================================================================
+# C05 — listing tables hold exactly the numbers printed in the file
+# =====================================================================================
+
+_TOK = re.compile(r'\S+')
+
+
+def is_num(tok):
+    v = F.fread(tok)
+    return v is not None and v == v
+
+
+def tokenise(line):
+    """Independent row tokeniser: (head text, [(column, text)] of the trailing run of
+    blank-separated number tokens that carry a decimal point)."""
+    toks = [(m.start(), m.group()) for m in _TOK.finditer(line)]
+    tail = []
+    for pos, t in reversed(toks):
+        if '.' in t and is_num(t):
+            tail.append((pos, t))
+        else:
+            break
+    tail.reverse()
+    head_end = tail[0][0] if tail else len(line)
+    return line[:head_end], tail
+
+
+def my_fixname(name):
+    if len(name) == 5 and name[2].isdigit() and name[4].isdigit() and name[3] == ' ':
+        return name[:3] + '0' + name[4]
+    return name
+
+
+def keys_of_head(head, nkeys):
+    """Row key(s) printed in the head of a table line: the index integer is the last token, the
+    5-character names before it end in a digit (searched right to left)."""
+    h = head.rstrip()
+    # strip the index (digits or overflow asterisks)
+    m = re.search(r'(\s)([0-9]+|\*+)$', h)
+    if not m:
+        return None
+    h = h[:m.start(2)].rstrip()
+    keys = []
+    pos = len(h) - 1
+    for _ in range(nkeys):
+        while pos >= 4 and not h[pos].isdigit():
+            pos -= 1
+        if pos < 4:
+            return None
+        keys.append(my_fixname(h[pos - 4:pos + 1]))
+        pos -= 5
+    keys.reverse()
+    return keys[0] if nkeys == 1 else tuple(keys)
+
+
+def header_tokens(colnames):
+    out = []
+    for c in colnames:
+        out += c.split()
+    return out
+
+
+def is_header_of(line_tokens, htoks):
+    it = iter(line_tokens)
+    return all(any(t == x for x in it) for t in htoks)
+
+
+class Located(object):
+    __slots__ = ('table', 'row', 'offset', 'line', 'tail', 'full')
+
+
+def locate_rows(data, lst, index, encoding='latin-1'):
+    """For result set `index` of the (unmodified) image: the data lines of every table the
+    reader exposes, found by an independent scan.  Returns list of Located."""
+    starts = sorted(lst._pos)
+    begin = lst._fullpos[index]
+    later = [p for p in starts if p > begin]
+    end = later[0] if later else len(data)
+    tabs = [(name, lst._table[name]) for name in lst._tablenames]
+    hdrs = [(name, header_tokens(t.column_name)) for name, t in tabs]
+    keysets = {}
+    for name, t in tabs:
+        d = {}
+        for r, k in enumerate(t.row_name):
+            d.setdefault(k, []).append(r)
+        keysets[name] = d
+    out = []
+    cur = None
+    seen_hdr = set()
+    pos = begin
+    for raw in data[begin:end].split(b'\n'):
+        line = raw.decode(encoding).rstrip('\r')
+        off = pos
+        pos += len(raw) + 1
+        ltoks = line.split()
+        if not ltoks:
+            continue
+        hit = None
+        for name, ht in hdrs:
+            if len(ltoks) >= len(ht) and 'INDEX' in ltoks or 'IND.' in ltoks:
+                if is_header_of(ltoks, ht):
+                    # several tables can share a prefix of names; prefer the first not yet seen
+                    if hit is None or (hit in seen_hdr and name not in seen_hdr):
+                        hit = name
+        if hit is not None:
+            cur = hit
+            seen_hdr.add(hit)
+            continue
+        if cur is None:
+            continue
+        t = lst._table[cur]
+        head, tail = tokenise(line)
+        if not tail:
+            continue
+        key = keys_of_head(head, t.num_keys)
+        if key is None or key not in keysets[cur]:
+            continue
+        rows = keysets[cur][key]
+        if len(rows) != 1:
+            continue                      # duplicate keys (TOUGH2-MP): not addressed by name
+        L = Located()
+        L.table, L.row, L.offset, L.line, L.tail = cur, rows[0], off, line, tail
+        ncols = t.num_columns
+        if t.column_name[0] == 'I':
+            # integer first column (ECO2M): ncols-1 dotted values after one integer
+            L.full = len(tail) == ncols - 1
+        else:
+            # the token before the dotted run must not be another number with a decimal point
+            L.full = len(tail) == ncols
+        out.append(L)
+    # a row printed more than once (TOUGH2-MP prints shared rows once per processor): which
+    # print the reader keeps is its choice, so such rows are not addressed
+    cnt = {}
+    for L in out:
+        cnt[(L.table, L.row)] = cnt.get((L.table, L.row), 0) + 1
+    return [L for L in out if cnt[(L.table, L.row)] == 1]
+
+
+def variants(tok, rng, room_left):
+    """Other numbers of the same printed form (same width, same decimal-point column).
+    Returns list of (kind, new text, shift) where shift=1 means the text starts one column
+    earlier (a minus sign in the blank before the token)."""
+    out = []
+    m = re.match(r'^(-?)(\d*)\.(\d*)(?:([EeDd]?)([+-])(\d+))?$', tok)
+    if not m:
+        return out
+    sign, ip, fp, letter, esign, ex = m.groups()
+    has_exp = esign is not None
+    def build(ip_, fp_, letter_=letter, esign_=esign, ex_=ex, sign_=sign):
+        s = '%s%s.%s' % (sign_, ip_, fp_)
+        if has_exp:
+            s += '%s%s%s' % (letter_, esign_, ex_)
+        return s
+    zero = build('0' * len(ip), '0' * len(fp), ex_=('0' * len(ex) if has_exp else None))
+    if has_exp and esign == '-':
+        zero = build('0' * len(ip), '0' * len(fp), esign_='+', ex_='0' * len(ex))
+    out.append(('zero', zero, 0))
+    out.append(('nines', build('9' * len(ip), '9' * len(fp)), 0))
+    scr_i = ''.join(rng.choice('123456789') for _ in ip)
+    scr_f = ''.join(rng.choice('0123456789') for _ in fp)
+    out.append(('scramble', build(scr_i, scr_f), 0))
+    if sign == '-':
+        out.append(('positive', ' ' + build(ip, fp, sign_=''), 0))
+    elif room_left >= 2:
+        out.append(('negative', '-' + tok, 1))
+    if has_exp and letter and len(ex) == 2:
+        out.append(('exp3_noE', build(ip, fp, letter_='', ex_='1' + ex), 0))
+        if len(fp) >= 2:
+            out.append(('exp3_E', build(ip, fp[:-1], ex_='1' + ex), 0))
+        out.append(('expsign', build(ip, fp, esign_='-' if esign == '+' else '+'), 0))
+        out.append(('small', build('1' if ip else '', '0' * len(fp) if ip else
+                                   '1' + '0' * (len(fp) - 1), esign_='-', ex_='98'), 0))
+        out.append(('big', build('9' * len(ip), '9' * len(fp), esign_='+', ex_='98'), 0))
+    return [(k, t, sh) for k, t, sh in out if len(t) == len(tok) + sh and t.strip() != tok]
+
+
+class TableMachine(ListingBase):
+    PROP = 'C05'
+    OPS = ('TOKENS', 'REWRITE', 'SKIP', 'TRUNC', 'ADDR', 'OPEN')
+
+    @classmethod
+    def knobs(cls, rng, tier):
+        k = {'tier': tier}
+        w = {op: (rng.random() if rng.random() < 0.85 else 0.0) for op in cls.OPS}
+        w['OPEN'] = 0.05
+        w['REWRITE'] = max(w['REWRITE'], 0.4)
+        k['weights'] = w
+        k['nops'] = rng.choice((1, 2, 3, 4, 6))
+        k['max_rewrites'] = rng.choice((1, 2, 4, 8))
+        return k
+
+    @classmethod
+    def generate(cls, rng, knobs):
+        R = rng.randrange
+        ops = [['OPEN', [R(10 ** 6)], None]]
+        kinds = [o for o in cls.OPS if knobs['weights'][o] > 0]
+        wts = [knobs['weights'][o] for o in kinds]
+        for _ in range(knobs['nops']):
+            kd = rng.choices(kinds, wts)[0]
+            ops.append([kd, [R(10 ** 6), R(10 ** 6), 1 + R(knobs['max_rewrites'])], None])
+        return ops
+
+    def apply(self, op):
+        kind, ch = op[0], list(op[1]) + [0] * 4
+        ctx = self.ctx
+        if kind == 'OPEN':
+            cat = catalogue(self.tier)
+            self.rel = cat[ch[0] % len(cat)]
+            self.data = image(self.rel)
+            self.rewritten = {}            # (table, index, row, col) -> expected value
+            ctx.digest.add('OPEN', self.rel)
+            ctx.fp.append(('OPEN', self.rel))
+            ctx.probes['file:' + self.rel] += 1
+            return
+        if self.rel is None:
+            ctx.stats['skip_noopen'] += 1
+            return
+        done = getattr(self, 'op_' + kind)(ch)
+        if done is False:
+            ctx.stats['skip_' + kind] += 1
+            return
+        ctx.stats['op_' + kind] += 1
+        ctx.state_changes += 1
+        ctx.fp.append((kind, self.rel, done if isinstance(done, (int, str, tuple)) else 0))
+        ctx.digest.add(kind, self.rel, sha(self.data), repr(done))
+
+    def reader(self, data, skip=()):
+        return self.open_image(self.rel, data, skip)
+
+    def nfull(self):
+        return self.fresh_meta()[0]
+
+    def fresh_meta(self):
+        key = ('meta', self.rel, sha(self.data))
+        if key not in _FRESH:
+            lst = self.reader(self.data)
+            _FRESH[key] = (lst.num_fulltimes, list(lst._tablenames))
+            lst.close()
+        return _FRESH[key]
+
+    # ---- P3: independent tokeniser against the reader's cells
+    def op_TOKENS(self, ch):
+        n = self.nfull()
+        i = ch[0] % n
+        lst = self.reader(self.data)
+        if i:
+            self.guarded(lambda: setattr(lst, 'index', i), 'index = %d' % i)
+        located = locate_rows(self.data, lst, i)
+        nfull = 0
+        for L in located:
+            t = lst._table[L.table]
+            vals = [F.fread(tok) for _, tok in L.tail]
+            got = list(t._data[L.row, :])
+            if L.full:
+                nfull += 1
+                if t.column_name[0] == 'I':
+                    got = got[1:]
+                for j, (v, g) in enumerate(zip(vals, got)):
+                    if not (v == g or (v != v and g != g)):
+                        raise Violation('P3', '%s result set %d table %s row %r column %r: the '
+                                        'file prints %r, the table holds %r'
+                                        % (self.rel, i, L.table, t.row_name[L.row],
+                                           t.column_name[j + (t.column_name[0] == 'I')],
+                                           L.tail[j][1], g))
+            else:
+                # short row: the printed numbers, in order, are the row's non-zero cells
+                pv = [v for v in vals if v != 0.0]
+                gv = [g for g in got if g != 0.0]
+                if t.column_name[0] == 'I':
+                    continue
+                if pv != gv and not (len(pv) <= len(gv) and all(a == b for a, b in zip(pv, gv))):
+                    raise Violation('P3.short', '%s result set %d table %s row %r prints %r but '
+                                    'the table holds %r' % (self.rel, i, L.table,
+                                                            t.row_name[L.row], vals, got))
+        ctx = self.ctx
+        ctx.probes['rows_located'] += len(located)
+        ctx.probes['rows_located_full'] += nfull
+        ctx.probes['rows_total'] += sum(lst._table[nm].num_rows for nm in lst._tablenames)
+        lst.close()
+        return (i > 0, min(nfull, 3))
+
+    # ---- P1 / P2: stored-number rewrites
+    def op_REWRITE(self, ch):
+        ctx = self.ctx
+        rng = random.Random(H('rewrite', ch[1]))
+        n = self.nfull()
+        lst = self.reader(self.data)
+        cells = []
+        data = bytearray(self.data)
+        used_lines = set()
+        for _ in range(ch[2]):
+            i = rng.randrange(n)
+            if i:
+                self.guarded(lambda: setattr(lst, 'index', i), 'index = %d' % i)
+            else:
+                self.guarded(lst.first, 'first()')
+            located = [L for L in locate_rows(bytes(self.data), lst, i)
+                       if L.offset not in used_lines and
+                       (L.full or lst._table[L.table].column_name[0] != 'I')]
+            # rows with blank cells ("short" rows, mostly generation tables) are rewritten too
+            short_rows = [L for L in located if not L.full]
+            if short_rows and rng.random() < 0.3:
+                located = short_rows
+            if not located:
+                continue
+            L = located[rng.randrange(len(located))]
+            t = lst._table[L.table]
+            j = rng.randrange(len(L.tail))
+            col, tok = L.tail[j]
+            prev_end = (L.tail[j - 1][0] + len(L.tail[j - 1][1])) if j else \
+                len(L.line[:col].rstrip())
+            vs = variants(tok, rng, col - prev_end)
+            if not vs:
+                continue
+            kd, new, sh = vs[rng.randrange(len(vs))]
+            a = L.offset + col - sh
+            if bytes(data[a:a + len(new)]).decode('latin-1') != (' ' * sh + tok):
+                raise HarnessError('rewrite target mismatch')
+            data[a:a + len(new)] = new.encode('latin-1')
+            used_lines.add(L.offset)
+            cj = j + (1 if t.column_name[0] == 'I' else 0)
+            if not L.full:
+                # which column the j-th printed number belongs to is not known independently:
+                # the oracle for this row is "its non-zero cells are the printed non-zero numbers"
+                printed = [F.fread(new) if k == j else F.fread(tk) for k, (_, tk) in
+                           enumerate(L.tail)]
+                cj = ('short', tuple(v for v in printed if v != 0.0))
+            cells.append((L.table, i, L.row, cj, F.fread(new), tok, new, kd))
+            ctx.probes['rewrite_' + kd] += 1
+        lst.close()
+        if not cells:
+            return False
+        new_data = bytes(data)
+        old_data = self.data
+        # read the rewritten image with a fresh reader at every index
+        lst2 = self.reader(new_data)
+        if lst2.num_fulltimes != n:
+            raise Violation('P2', '%s: after rewriting %d numbers the reader sees %d result sets '
+                            'instead of %d' % (self.rel, len(cells), lst2.num_fulltimes, n))
+        for i in range(n):
+            if i:
+                self.guarded(lambda: setattr(lst2, 'index', i), 'index = %d' % i)
+            got = self.snap(lst2)
+            want = self.fresh_at(self.rel, old_data, (), i)
+            if list(got[3]) != list(want[3]):
+                raise Violation('P2', '%s: rewriting numbers changed the tables found: %r -> %r'
+                                % (self.rel, list(want[3]), list(got[3])))
+            for name in want[3]:
+                wr, wd = want[3][name]
+                gr, gd = got[3][name]
+                if wr != gr:
+                    raise Violation('P2', '%s: rewriting numbers changed the row names of table '
+                                    '%s at result set %d' % (self.rel, name, i))
+                exp = wd.copy()
+                mine = [c for c in cells if c[0] == name and c[1] == i]
+                for c in mine:
+                    if isinstance(c[3], tuple):
+                        # short row: compare by the non-zero sequence, then exclude from P2
+                        nz = tuple(v for v in gd[c[2], :] if v != 0.0)
+                        if nz != c[3][1]:
+                            raise Violation('P1.short', '%s result set %d table %s row %r: %r was '
+                                            'replaced in the file by %r (%s); the row prints %r '
+                                            'but the table holds %r'
+                                            % (self.rel, i, name, wr[c[2]], c[5], c[6], c[7],
+                                               list(c[3][1]), list(gd[c[2], :])))
+                        exp[c[2], :] = gd[c[2], :]
+                    else:
+                        exp[c[2], c[3]] = c[4]
+                diff = np.argwhere(~((exp == gd) | (np.isnan(exp) & np.isnan(gd))))
+                if len(diff):
+                    r, cc = diff[0]
+                    hit = [c for c in mine if (c[2], c[3]) == (r, cc)]
+                    if hit:
+                        c = hit[0]
+                        raise Violation('P1', '%s result set %d table %s row %r column %r: %r '
+                                        'was replaced in the file by %r (%s) but the table holds '
+                                        '%r' % (self.rel, i, name, wr[r],
+                                                lst2._table[name].column_name[cc], c[5], c[6],
+                                                c[7], gd[r, cc]), key=self.p1_key(c))
+                    raise Violation('P2', '%s result set %d table %s row %r column %r changed '
+                                    'from %r to %r although it was not rewritten (rewrites: %r)'
+                                    % (self.rel, i, name, wr[r],
+                                       lst2._table[name].column_name[cc], wd[r, cc], gd[r, cc],
+                                       [(c[0], c[1], c[5], c[6]) for c in cells]),
+                                    key=self.p2_key(cells))
+        lst2.close()
+        self.data = new_data
+        return tuple(sorted(set(c[7] for c in cells)))
+
+    def p1_key(self, c):
+        return '-'
+
+    def p2_key(self, cells):
+        return '-'
+
+    # ---- P5: skipping tables does not change the others
+    def op_SKIP(self, ch):
+        n, names = self.fresh_meta()
+        mask = 1 + ch[0] % (2 ** len(names) - 1)
+        skip = tuple(nm for b, nm in enumerate(names) if mask >> b & 1)
+        as_str = False      # the documentation gives skip_tables as a list of names
+        name = self.fs_name(self.rel, self.data)
+        self.ctx.fs.put(name, self.data)
+        self.op_budget = self.budget(self.data, n)
+        what = 'opening %s with skip_tables=%r' % (self.rel, skip)
+        lst = self.guarded(lambda: self.tl.t2listing(ROOT + name,
+                                                     skip_tables=skip[0] if as_str else list(skip)),
+                           what)
+        for i in range(n):
+            if i:
+                self.guarded(lambda: setattr(lst, 'index', i), what + ', index = %d' % i)
+            got = self.snap(lst)
+            want = self.fresh_at(self.rel, self.data, (), i)
+            if (got[1], got[2]) != (want[1], want[2]):
+                raise Violation('P5', '%s: time/step differ at result set %d' % (what, i))
+            for name in want[3]:
+                if name in skip:
+                    continue
+                if name not in got[3]:
+                    raise Violation('P5', '%s: table %s disappeared' % (what, name),
+                                    key=self.p5_key(skip))
+                wr, wd = want[3][name]
+                gr, gd = got[3][name]
+                if wr != gr or not np.array_equal(wd, gd, equal_nan=True):
+                    raise Violation('P5', '%s: table %s at result set %d differs from the one '
+                                    'read without skipping' % (what, name, i),
+                                    key=self.p5_key(skip))
+        lst.close()
+        self.ctx.probes['skip_subset_size_%d' % len(skip)] += 1
+        return skip
+
+    def p5_key(self, skip):
+        return '-'
+
+    def exc_key(self, what, e):
+        return '-'
+
+    # ---- P4: the writer stopped after k result sets
+    def op_TRUNC(self, ch):
+        if self.data is not image(self.rel) and self.data != image(self.rel):
+            return False          # only the shipped image is truncated
+        n = self.nfull()
+        if n < 2:
+            return False
+        keep = 1 + ch[0] % (n - 1)
+        t = self.truncated(self.rel, keep)
+        if t is None:
+            self.ctx.probes['truncation_discarded'] += 1
+            return False
+        for i in range(keep):
+            got = self.fresh_at(self.rel, t, (), i)
+            want = self.fresh_at(self.rel, self.data, (), i)
+            self.compare_snap(want, got, '%s truncated after %d result sets, index %d'
+                              % (self.rel, keep, i), check='P4')
+        return keep
+
+    # ---- P6: the three ways of addressing a cell agree
+    def op_ADDR(self, ch):
+        n = self.nfull()
+        i = ch[0] % n
+        rng = random.Random(H('addr', ch[1]))
+        lst = self.reader(self.data)
+        if i:
+            self.guarded(lambda: setattr(lst, 'index', i), 'index = %d' % i)
+        for name in lst._tablenames:
+            t = lst._table[name]
+            if not t.num_rows:
+                continue
+            rows = set([0, t.num_rows - 1] + [rng.randrange(t.num_rows) for _ in range(6)])
+            dup = set(k for k in t.row_name if t.row_name.count(k) > 1) if t.num_rows < 3000 \
+                else set()
+            for r in rows:
+                byidx = t[r]
+                key = t.row_name[r]
+                if byidx['key'] != key:
+                    raise Violation('P6', '%s table %s row %d reports key %r, row names say %r'
+                                    % (self.rel, name, r, byidx['key'], key))
+                for col in t.column_name:
+                    a, c = byidx[col], t[col][r]
+                    if not (a == c or (a != a and c != c)):
+                        raise Violation('P6', '%s table %s: [%d][%r] = %r but [%r][%d] = %r'
+                                        % (self.rel, name, r, col, a, col, r, c))
+                    if key not in dup:
+                        b = t[key][col]
+                        if not (a == b or (a != a and b != b)):
+                            raise Violation('P6', '%s table %s: [%d][%r] = %r but [%r][%r] = %r'
+                                            % (self.rel, name, r, col, a, key, col, b))
+                if t.allow_reverse_keys and t.num_keys > 1 and key[::-1] not in t._row:
+                    rev = t[key[::-1]]
+                    if rev is None or any(not (rev[c] == -byidx[c] or
+                                               (rev[c] != rev[c] and byidx[c] != byidx[c]))
+                                          for c in t.column_name):
+                        raise Violation('P6', '%s table %s: reversed key %r does not give the '
+                                        'negated row' % (self.rel, name, key[::-1]))
+        lst.close()
+        return i > 0
